@@ -1,3 +1,416 @@
-/- Property theorems for C01 (stub: not built yet). -/
+/-
+C01  Temporal CV splitters never leak the future and tile the series as documented.
+Property theorems about SkVerif/Model/Split.lean against SkVerif/Spec/Split.lean.
+Only theorems + non-vacuity examples here; helper lemmas live in SkVerif/Lemmas/Split*.lean.
+`Valid` (Spec/Split.lean) = a valid choice of parameters for an out-of-sample horizon:
+fh strictly increasing, non-empty, all steps > 0; window_length, step_length ≥ 1;
+window_length + max(fh) ≤ n; an initial window only for the sliding splitter started with a
+full window, longer than window_length and with initial_window + max(fh) ≤ n.
+-/
+import SkVerif.Lemmas.SplitProps
 namespace SkVerif.C01
+open SkVerif SkVerif.Split SkVerif.Split.Spec
+
+/-- Every valid sliding/expanding splitter yields exactly the specified folds: the initial window
+(if any), then one fold per cutoff of the progression, train = the window ending at the cutoff,
+test = cutoff + fh (after the `>= 0` filter of `split`). -/
+theorem window_fold_shape {k n wl step fh iw sww} (v : Valid k n wl step fh iw sww) :
+    windowSplit k n fh wl step iw sww = .ok (folds k n wl step fh iw sww) :=
+  Lem.windowSplit_valid v
+
+/-- each yielded fold has a contiguous training window of non-negative positions ending at a
+cutoff that the splitter reports -/
+theorem train_contiguous_ends_at_cutoff {k n wl step fh iw sww} (v : Valid k n wl step fh iw sww)
+    (fs : List Fold) (h : windowSplit k n fh wl step iw sww = .ok fs) (f : Fold) (hf : f ∈ fs) :
+    ∃ c a, c ∈ allCutoffs n wl step fh iw sww ∧ 0 ≤ a ∧ f.1 = arange a (c + 1) := by
+  rw [window_fold_shape v] at h; cases h
+  obtain ⟨c, a, hc, ha, rfl⟩ := Lem.fold_mem_shape v f hf
+  exact ⟨c, a, hc, ha, rfl⟩
+
+/-- … and its test positions are exactly cutoff + fh for that same cutoff -/
+theorem test_eq_cutoff_add_fh {k n wl step fh iw sww} (v : Valid k n wl step fh iw sww)
+    (fs : List Fold) (h : windowSplit k n fh wl step iw sww = .ok fs) (f : Fold) (hf : f ∈ fs) :
+    ∃ c a, f.1 = arange a (c + 1) ∧ f.2 = fh.map (c + ·) := by
+  rw [window_fold_shape v] at h; cases h
+  obtain ⟨c, a, _, _, rfl⟩ := Lem.fold_mem_shape v f hf
+  exact ⟨c, a, rfl, rfl⟩
+
+/-- every position of every fold lies inside the series -/
+theorem positions_in_range {k n wl step fh iw sww} (v : Valid k n wl step fh iw sww)
+    (fs : List Fold) (h : windowSplit k n fh wl step iw sww = .ok fs) (f : Fold) (hf : f ∈ fs)
+    (p : Int) (hp : p ∈ f.1 ∨ p ∈ f.2) : 0 ≤ p ∧ p < n := by
+  rw [window_fold_shape v] at h; cases h
+  obtain ⟨c, a, hc, ha, rfl⟩ := Lem.fold_mem_shape v f hf
+  have hb := Lem.allCutoffs_mem_bounds v c hc
+  have hfm : 0 < fhMax fh := v.pos _ (Lem.fhMax_mem fh v.nonempty)
+  rcases hp with hp | hp
+  · have := (Lem.arange_mem a (c + 1) p).mp hp; omega
+  · obtain ⟨h', hh, rfl⟩ := List.mem_map.mp hp
+    have h1 := v.pos h' hh
+    have h2 := Lem.le_fhMax fh v.sorted h' hh
+    omega
+
+/-- no training position is at or after a test position (no leakage of the future) -/
+theorem train_lt_test {k n wl step fh iw sww} (v : Valid k n wl step fh iw sww)
+    (fs : List Fold) (h : windowSplit k n fh wl step iw sww = .ok fs) (f : Fold) (hf : f ∈ fs)
+    (p q : Int) (hp : p ∈ f.1) (hq : q ∈ f.2) : p < q := by
+  rw [window_fold_shape v] at h; cases h
+  obtain ⟨c, a, _, _, rfl⟩ := Lem.fold_mem_shape v f hf
+  have := (Lem.arange_mem a (c + 1) p).mp hp
+  obtain ⟨h', hh, rfl⟩ := List.mem_map.mp hq
+  have := v.pos h' hh
+  omega
+
+/-- the cutoffs of the regular windows are exactly the arithmetic progression
+first, first + step, … of feasible cutoffs (cutoff + max(fh) ≤ n − 1), in increasing order -/
+theorem cutoffs_progression {k n wl step fh iw sww} (v : Valid k n wl step fh iw sww) :
+    (cutoffs n wl step fh iw sww).Pairwise (· < ·) ∧
+    ∀ c, c ∈ cutoffs n wl step fh iw sww ↔
+      firstCutoff wl step iw sww ≤ c ∧ step ∣ (c - firstCutoff wl step iw sww) ∧ c + fhMax fh ≤ n - 1 :=
+  ⟨Lem.cutoffs_sorted v, Lem.cutoffs_mem v⟩
+
+/-- the progression starts at the first feasible cutoff: a full window (`window_length − 1`), the
+window after the initial one, or the empty window (−1) -/
+theorem first_cutoff_is_first_feasible {k n wl step fh iw sww} (v : Valid k n wl step fh iw sww)
+    (hfeas : firstCutoff wl step iw sww + fhMax fh ≤ n - 1) :
+    (cutoffs n wl step fh iw sww).head? = some (firstCutoff wl step iw sww) := by
+  unfold cutoffs
+  rw [Lem.pyRange_cons _ _ _ (by have := v.step_pos; omega) (by omega)]
+  simp
+
+/-- … and ends at the last feasible one: one more step would push the horizon past the end -/
+theorem last_cutoff_is_last_feasible {k n wl step fh iw sww} (v : Valid k n wl step fh iw sww)
+    (c : Int) (hc : (cutoffs n wl step fh iw sww).getLast? = some c) :
+    c + fhMax fh ≤ n - 1 ∧ n - 1 < c + step + fhMax fh := by
+  have hmem : c ∈ cutoffs n wl step fh iw sww := List.mem_of_getLast? hc
+  have hm := (Lem.cutoffs_mem v c).mp hmem
+  refine ⟨hm.2.2, ?_⟩
+  by_contra hcon
+  have hnext : c + step ∈ cutoffs n wl step fh iw sww := by
+    rw [Lem.cutoffs_mem v]
+    refine ⟨by have := v.step_pos; omega, ?_, by omega⟩
+    obtain ⟨j, hj⟩ := hm.2.1
+    exact ⟨j + 1, by rw [Int.mul_add]; omega⟩
+  -- the last element of a strictly increasing list is its maximum
+  have hsorted := Lem.cutoffs_sorted v
+  obtain ⟨l, hl⟩ : ∃ l, cutoffs n wl step fh iw sww = l ++ [c] := by
+    have hne : cutoffs n wl step fh iw sww ≠ [] := List.ne_nil_of_mem hmem
+    refine ⟨(cutoffs n wl step fh iw sww).dropLast, ?_⟩
+    have h1 := List.dropLast_append_getLast hne
+    have h2 : (cutoffs n wl step fh iw sww).getLast hne = c := by
+      have := List.getLast?_eq_some_getLast hne
+      rw [this] at hc; exact Option.some.inj hc
+    rw [h2] at h1; exact h1.symm
+  rw [hl] at hsorted hnext
+  rcases List.mem_append.mp hnext with h | h
+  · have := (List.pairwise_append.mp hsorted).2.2 _ h c (by simp)
+    have := v.step_pos; omega
+  · simp at h; have := v.step_pos; omega
+
+/-- sliding windows started with a full window have exactly the requested length -/
+theorem sliding_length_exact {n wl step fh iw} (v : Valid .sliding n wl step fh iw true)
+    (c : Int) (hc : c ∈ cutoffs n wl step fh iw true) : (train .sliding wl c).length = wl.toNat := by
+  have hm := (Lem.cutoffs_mem v c).mp hc
+  have hw := v.wl_pos
+  have h1 : wl - 1 ≤ firstCutoff wl step iw true := by
+    cases iw with
+    | none => simp [firstCutoff]
+    | some i => have := v.iw_ok i rfl; have := v.step_pos; simp [firstCutoff]; omega
+  simp only [train, Lem.arange_length]
+  omega
+
+/-- started with an empty window (`start_with_window = False`) they grow to that length -/
+theorem sliding_length_from_empty {n wl step fh} (v : Valid .sliding n wl step fh none false)
+    (c : Int) (hc : c ∈ cutoffs n wl step fh none false) :
+    (train .sliding wl c).length = (min wl (c + 1)).toNat := by
+  have hm := (Lem.cutoffs_mem v c).mp hc
+  have hw := v.wl_pos
+  simp only [firstCutoff, Bool.false_eq_true, ↓reduceIte] at hm
+  simp only [train, Lem.arange_length]
+  omega
+
+/-- expanding windows always start at the first observation and end at the cutoff -/
+theorem expanding_starts_at_zero {n wl step fh sww} (v : Valid .expanding n wl step fh none sww)
+    (fs : List Fold) (h : windowSplit .expanding n fh wl step none sww = .ok fs) (f : Fold) (hf : f ∈ fs) :
+    ∃ c, c ∈ cutoffs n wl step fh none sww ∧ f = (arange 0 (c + 1), fh.map (c + ·)) := by
+  rw [window_fold_shape v] at h; cases h
+  simp only [folds, initialFold, List.nil_append, List.mem_map] at hf
+  obtain ⟨c, hc, rfl⟩ := hf
+  exact ⟨c, hc, rfl⟩
+
+/-- with an initial window the first fold trains on the first `initial_window` observations -/
+theorem initial_window_fold {n wl step fh} (i : Int) (v : Valid .sliding n wl step fh (some i) true) :
+    (folds .sliding n wl step fh (some i) true).head? = some (arange 0 i, fh.map (i - 1 + ·)) := by
+  simp [folds, initialFold]
+
+/-- cutoff of a fold, recovered from its test window -/
+def foldCutoff (fh : List Int) (f : Fold) : Int := f.2.head?.getD 0 - fhMin fh
+
+/-- the cutoffs a splitter reports are exactly those of the folds it yields, in order -/
+theorem reported_cutoffs_eq_yielded {k n wl step fh iw sww} (v : Valid k n wl step fh iw sww)
+    (fs : List Fold) (h : windowSplit k n fh wl step iw sww = .ok fs) :
+    windowCutoffs n fh wl step iw sww = .ok (fs.map (foldCutoff fh)) := by
+  rw [window_fold_shape v] at h; cases h
+  rw [Lem.windowCutoffs_valid v]
+  congr 1
+  obtain ⟨h0, t, hfh⟩ : ∃ h0 t, fh = h0 :: t := by
+    cases hfh : fh with
+    | nil => exact absurd hfh v.nonempty
+    | cons a l => exact ⟨a, l, rfl⟩
+  have key : ∀ c, foldCutoff fh (fold k wl fh c) = c := by
+    intro c; subst hfh; simp [foldCutoff, fold, fhMin]
+  unfold allCutoffs folds
+  rw [List.map_append, List.map_map]
+  congr 1
+  · cases iw with
+    | none => simp [initialFold]
+    | some i => subst hfh; simp [initialFold, foldCutoff, fhMin]
+  · symm
+    calc List.map (foldCutoff fh ∘ fold k wl fh) (cutoffs n wl step fh iw sww)
+        = List.map id (cutoffs n wl step fh iw sww) := by
+          apply List.map_congr_left; intro c _; exact key c
+      _ = cutoffs n wl step fh iw sww := List.map_id _
+
+/-- the number of splits reported equals the number of folds yielded -/
+theorem n_splits_eq_length {k n wl step fh iw sww} (v : Valid k n wl step fh iw sww)
+    (fs : List Fold) (h : windowSplit k n fh wl step iw sww = .ok fs) :
+    windowNSplits n fh wl step iw sww = .ok fs.length := by
+  unfold windowNSplits
+  rw [reported_cutoffs_eq_yielded v fs h]
+  simp [Except.map]
+
+/-- the single-window splitter: one fold, window of the requested length (or everything) ending
+at the cutoff `n − max(fh) − 1`, test = cutoff + fh; the reported cutoff is that one -/
+theorem single_window_fold (n : Int) (fh : List Int) (wl : Option Int)
+    (hs : fh.Pairwise (· < ·)) (hne : fh ≠ []) (hpos : ∀ h ∈ fh, 0 < h)
+    (hwl : ∀ w, wl = some w → 1 ≤ w) (hfit : fhMax fh ≤ n) :
+    singleSplit n fh wl =
+      .ok [(arange (match wl with | none => 0 | some w => max (n - fhMax fh - w) 0) (n - fhMax fh),
+            fh.map (n - fhMax fh - 1 + ·))] ∧
+    singleCutoffs n fh = .ok [n - fhMax fh - 1] := by
+  have hend : getEnd n fh = n - fhMax fh + 1 := by simp [getEnd, Lem.allIn_false_of_pos fh hne hpos]
+  have e : n - fhMax fh + 1 - 1 = n - fhMax fh := by omega
+  have e2 : n - fhMax fh + 1 - 2 = n - fhMax fh - 1 := by omega
+  constructor
+  · unfold singleSplit singleSplitRaw
+    cases wl with
+    | none =>
+      simp only [bind, Except.bind, pure, Except.pure, Except.map, filterFolds, List.map_cons, List.map_nil,
+        Lem.checkFh_sorted fh hs hne, hend, e]
+      rw [Lem.nonneg_arange, Lem.nonneg_test fh hpos _ (by omega)]
+      simp
+    | some w =>
+      have hw : ¬ w < 1 := by have := hwl w rfl; omega
+      simp only [hw, ↓reduceIte, bind, Except.bind, pure, Except.pure, Except.map, filterFolds,
+        List.map_cons, List.map_nil, Lem.checkFh_sorted fh hs hne, hend, e]
+      rw [Lem.nonneg_arange, Lem.nonneg_test fh hpos _ (by omega)]
+  · unfold singleCutoffs
+    simp only [bind, Except.bind, pure, Except.pure, Lem.checkFh_sorted fh hs hne, hend, e2]
+
+/-- that cutoff is the last feasible one -/
+theorem single_window_is_last_feasible (n : Int) (fh : List Int) :
+    (n - fhMax fh - 1) + fhMax fh = n - 1 ∧ n - 1 < (n - fhMax fh - 1) + 1 + fhMax fh := by
+  omega
+
+/-- what makes a cutoff set valid for the cutoff splitter -/
+structure CutoffValid (n wl : Int) (cs fh : List Int) : Prop where
+  sorted : fh.Pairwise (· < ·)
+  nonempty : fh ≠ []
+  pos : ∀ h ∈ fh, 0 < h
+  wl_pos : 1 ≤ wl
+  cs_nonempty : cs ≠ []
+  cs_nonneg : ∀ c ∈ cs, 0 ≤ c
+  feasible : ∀ c ∈ cs, c + fhMax fh ≤ n - 1
+
+/-- the cutoff splitter yields one fold per given cutoff, in increasing order of cutoff:
+the window of `window_length` positions (clipped at 0) ending at the cutoff, test = cutoff + fh -/
+theorem cutoff_splitter_uses_given_cutoffs {n wl cs fh} (v : CutoffValid n wl cs fh) :
+    cutoffSplit n cs fh wl =
+      .ok ((sortInts cs).map (fun c => (arange (max (c + 1 - wl) 0) (c + 1), fh.map (c + ·)))) ∧
+    cutoffCutoffs cs = .ok (sortInts cs) := by
+  have hne : (sortInts cs) ≠ [] := by
+    intro h; have := (Lem.sortInts_perm cs).length_eq; rw [h] at this
+    exact v.cs_nonempty (List.length_eq_zero_iff.mp this.symm)
+  have hempty : cs.isEmpty = false := by
+    cases cs with | nil => exact absurd rfl v.cs_nonempty | cons a l => rfl
+  have hfm : 0 < fhMax fh := v.pos _ (Lem.fhMax_mem fh v.nonempty)
+  have hmaxmem : listMax (sortInts cs) ∈ cs := (Lem.sortInts_mem cs _).mp (Lem.listMax_mem _ hne)
+  have h1 : ¬ listMax (sortInts cs) ≥ n := by have := v.feasible _ hmaxmem; omega
+  have h2 : ¬ listMax (sortInts cs) + listMax fh ≥ n := by
+    have := v.feasible _ hmaxmem
+    have := Lem.le_fhMax fh v.sorted _ (Lem.listMax_mem fh v.nonempty)
+    omega
+  have h3 : ¬ wl < 1 := by have := v.wl_pos; omega
+  constructor
+  · unfold cutoffSplit cutoffSplitRaw
+    simp only [hempty, Bool.false_eq_true, ↓reduceIte, bind, Except.bind, pure, Except.pure, h1, h2, h3,
+      Lem.checkFh_sorted fh v.sorted v.nonempty, Except.map, filterFolds, List.map_map]
+    congr 1
+    apply List.map_congr_left
+    intro c hc
+    have hc0 := v.cs_nonneg c ((Lem.sortInts_mem cs c).mp hc)
+    simp only [Function.comp]
+    rw [Lem.arange_map_succ, Lem.nonneg_arange, Lem.nonneg_id]
+    · have : c - wl + 1 = c + 1 - wl := by omega
+      rw [this]
+    · intro x hx
+      obtain ⟨h', hh, rfl⟩ := List.mem_map.mp hx
+      have := v.pos h' hh; omega
+  · simp [cutoffCutoffs, hempty]
+
+/-- hence all its positions lie inside the series and training precedes test -/
+theorem cutoff_splitter_positions_in_range {n wl cs fh} (v : CutoffValid n wl cs fh)
+    (fs : List Fold) (h : cutoffSplit n cs fh wl = .ok fs) (f : Fold) (hf : f ∈ fs) :
+    (∀ p ∈ f.1, 0 ≤ p ∧ p < n) ∧ (∀ q ∈ f.2, 0 ≤ q ∧ q < n) ∧ ∀ p ∈ f.1, ∀ q ∈ f.2, p < q := by
+  rw [(cutoff_splitter_uses_given_cutoffs v).1] at h; cases h
+  obtain ⟨c, hc, rfl⟩ := List.mem_map.mp hf
+  have hcm := (Lem.sortInts_mem cs c).mp hc
+  have hc0 := v.cs_nonneg c hcm
+  have hfe := v.feasible c hcm
+  have hfm : 0 < fhMax fh := v.pos _ (Lem.fhMax_mem fh v.nonempty)
+  refine ⟨?_, ?_, ?_⟩
+  · intro p hp; have := (Lem.arange_mem _ _ p).mp hp; omega
+  · intro q hq
+    obtain ⟨h', hh, rfl⟩ := List.mem_map.mp hq
+    have := v.pos h' hh; have := Lem.le_fhMax fh v.sorted h' hh; omega
+  · intro p hp q hq
+    have := (Lem.arange_mem _ _ p).mp hp
+    obtain ⟨h', hh, rfl⟩ := List.mem_map.mp hq
+    have := v.pos h' hh; omega
+
+/-- a cutoff whose horizon would reach past the end of the series is rejected -/
+theorem cutoff_splitter_rejects_past_end (n wl : Int) (cs fh : List Int)
+    (hs : fh.Pairwise (· < ·)) (hne : fh ≠ [])
+    (c : Int) (hc : c ∈ cs) (hbad : c + fhMax fh ≥ n) :
+    cutoffSplit n cs fh wl = .error .value := by
+  have hempty : cs.isEmpty = false := by
+    cases cs with | nil => simp at hc | cons a l => rfl
+  have hge : c ≤ listMax (sortInts cs) := Lem.listMax_ge _ c ((Lem.sortInts_mem cs c).mpr hc)
+  have hge2 : fhMax fh ≤ listMax fh := Lem.listMax_ge _ _ (Lem.fhMax_mem fh hne)
+  unfold cutoffSplit cutoffSplitRaw
+  simp only [hempty, Bool.false_eq_true, ↓reduceIte, bind, Except.bind, pure, Except.pure,
+    Lem.checkFh_sorted fh hs hne]
+  by_cases h1 : listMax (sortInts cs) ≥ n
+  · simp [h1, Except.map, throw, throwThe, MonadExceptOf.throw]
+  · have h2 : listMax (sortInts cs) + listMax fh ≥ n := by omega
+    simp [h1, h2, Except.map, throw, throwThe, MonadExceptOf.throw]
+
+/-- `temporal_train_test_split(y, fh=fh)` with a relative out-of-sample horizon: the training part
+is everything up to `n − max(fh) − 1`, the test part is `(n − max(fh) − 1) + fh`; disjoint, ordered,
+inside the series -/
+theorem tts_by_fh_partition (n : Int) (fh : List Int)
+    (hs : fh.Pairwise (· < ·)) (hne : fh ≠ []) (hpos : ∀ h ∈ fh, 0 < h) (hfit : fhMax fh < n) :
+    ttsByFhRel n fh = .ok (arange 0 (n - fhMax fh), fh.map (fun h => n - fhMax fh + (h - 1))) ∧
+    ∀ q ∈ fh.map (fun h => n - fhMax fh + (h - 1)), n - fhMax fh ≤ q ∧ q < n := by
+  have hnd : fh.Nodup := Lem.nodup_of_strictSorted hs
+  have hsort : sortInts fh = fh := Lem.sortInts_of_sorted fh (hs.imp (by intro a b h; omega))
+  have hlen : fh.length ≠ 0 := by intro h; exact hne (List.length_eq_zero_iff.mp h)
+  have hall : ∀ h ∈ fh, ¬ (n - fhMax fh + (h - 1) ≥ n) := by
+    intro h hh; have := Lem.le_fhMax fh hs h hh; omega
+  constructor
+  · unfold ttsByFhRel
+    have hm : ¬ fhMax fh ≥ n := by omega
+    have hany : (fh.any fun h => decide (n - fhMax fh + (h - 1) ≥ n)) = false := by
+      rw [List.any_eq_false]; intro h hh; simpa using hall h hh
+    simp [FH.checkFh, FH.mk, FH.checkValues, hnd, hsort, Except.map, bind, Except.bind, pure, Except.pure,
+      hlen, Lem.allOut_of_pos fh hpos, hm, hany]
+  · intro q hq
+    obtain ⟨h, hh, rfl⟩ := List.mem_map.mp hq
+    have := hpos h hh; have := hall h hh; omega
+
+/-- `temporal_train_test_split` by sizes: whenever it returns, the training part is the first `k`
+positions and the test part the next `m` positions (order kept, no overlap, inside the series) -/
+theorem tts_by_size_partition (n : Int) (te tr : Size) (a b : List Int)
+    (h : ttsBySize n te tr = .ok (a, b)) :
+    ∃ k m : Int, k ≠ 0 ∧ k + m ≤ n ∧ a = arange 0 k ∧ b = arange k (k + m) := by
+  have key : ∃ k m, ttsFinish n k m = .ok (a, b) := by
+    unfold ttsBySize at h
+    split at h
+    · simp at h
+    · split at h
+      · simp at h
+      · exact ⟨_, _, h⟩
+  obtain ⟨k, m, hkm⟩ := key
+  unfold ttsFinish at hkm
+  split at hkm
+  · simp at hkm
+  · split at hkm
+    · simp at hkm
+    · simp only [Except.ok.injEq, Prod.mk.injEq] at hkm
+      exact ⟨k, m, by omega, by omega, hkm.1.symm, hkm.2.symm⟩
+
+/-- integer sizes are honoured exactly: the first `k` observations train, the next `m` test -/
+theorem tts_by_size_ints (n k m : Int) (hk : 0 < k) (hm : 0 < m) (hsum : k + m ≤ n) :
+    ttsBySize n (.int m) (.int k) = .ok (arange 0 k, arange k (k + m)) := by
+  have h1 : ¬ n < 1 := by omega
+  have h2 : ¬ (k ≥ n) := by omega
+  have h3 : ¬ (m ≥ n) := by omega
+  have h4 : ¬ (k ≤ 0) := by omega
+  have h5 : ¬ (m ≤ 0) := by omega
+  have h6 : ¬ (k + m > n) := by omega
+  have h7 : k ≠ 0 := by omega
+  simp [ttsBySize, ttsFinish, sizeBad, sizeSumBad, h1, h2, h3, h4, h5, h6, h7]
+
+/-- only a test size: everything before the last `m` observations trains -/
+theorem tts_by_size_test_int (n m : Int) (hm : 0 < m) (hlt : m < n) :
+    ttsBySize n (.int m) .none = .ok (arange 0 (n - m), arange (n - m) n) := by
+  have h1 : ¬ n < 1 := by omega
+  have h3 : ¬ (m ≥ n) := by omega
+  have h5 : ¬ (m ≤ 0) := by omega
+  have h7 : n - m ≠ 0 := by omega
+  simp [ttsBySize, ttsFinish, sizeBad, sizeSumBad, h1, h3, h5, h7]
+
+/-- infeasible window configurations are rejected (ValueError) -/
+theorem window_rejects_infeasible (k : Kind) (n wl step : Int) (fh : List Int) (iw : Option Int) (sww : Bool)
+    (hs : fh.Pairwise (· < ·)) (hne : fh ≠ [])
+    (hbad : step < 1 ∨ wl < 1 ∨ wl + fhMax fh > n) :
+    windowSplit k n fh wl step iw sww = .error .value := by
+  unfold windowSplit windowSplitRaw validate
+  simp only [bind, Except.bind, pure, Except.pure, throw, throwThe, MonadExceptOf.throw,
+    Lem.checkFh_sorted fh hs hne]
+  by_cases h1 : step < 1
+  · simp [h1, Except.map]
+  · by_cases h2 : wl < 1
+    · simp [h1, h2, Except.map]
+    · have h3 : wl + fhMax fh > n := by omega
+      cases iw with
+      | none => simp [h1, h2, h3, Except.map]
+      | some i =>
+        by_cases h4 : i < 1
+        · simp [h1, h2, h4, Except.map]
+        · simp [h1, h2, h3, h4, Except.map]
+
+/-- feasible ones are accepted -/
+theorem window_accepts_feasible {k n wl step fh iw sww} (v : Valid k n wl step fh iw sww) :
+    ∃ fs, windowSplit k n fh wl step iw sww = .ok fs ∧ fs ≠ [] := by
+  refine ⟨_, window_fold_shape v, ?_⟩
+  have hfeasible : iw = none → firstCutoff wl step iw sww + fhMax fh ≤ n - 1 := by
+    intro h; subst h
+    have := v.fits
+    have := v.wl_pos
+    have hfm : 0 < fhMax fh := v.pos _ (Lem.fhMax_mem fh v.nonempty)
+    cases sww <;> simp [firstCutoff] <;> omega
+  cases hiw : iw with
+  | some i => simp [folds, initialFold]
+  | none =>
+    subst hiw
+    have := first_cutoff_is_first_feasible v (hfeasible rfl)
+    intro hnil
+    simp only [folds, initialFold, List.nil_append, List.map_eq_nil_iff] at hnil
+    rw [hnil] at this; simp at this
+
+-- non-vacuity: concrete valid configurations
+example : Valid .sliding 10 3 2 [1, 2] none true :=
+  ⟨by decide, by decide, by decide, by decide, by decide, by decide, by intro i h; cases h⟩
+example : windowSplit .sliding 10 [1, 2] 3 2 none true =
+    .ok [([0, 1, 2], [3, 4]), ([2, 3, 4], [5, 6]), ([4, 5, 6], [7, 8])] := by decide
+example : Valid .sliding 10 3 1 [2] (some 5) true :=
+  ⟨by decide, by decide, by decide, by decide, by decide, by decide,
+   by intro i h; cases h; exact ⟨rfl, rfl, by decide, by decide⟩⟩
+example : CutoffValid 10 3 [7, 3] [2] :=
+  ⟨by decide, by decide, by decide, by decide, by decide, by decide, by decide⟩
+example : cutoffSplit 10 [8] [2] 3 = .error .value := by decide
+example : ttsBySize 10 (.int 3) .none = .ok (arange 0 7, arange 7 10) :=
+  tts_by_size_test_int 10 3 (by decide) (by decide)
+
 end SkVerif.C01
